@@ -1463,5 +1463,6 @@ pub fn gen_case(rng: Rng, knobs: &Knobs) -> Case {
         max_steps: knobs.max_steps,
         continue_after_error: rng.chance(knobs.continue_pct as u64, 100),
         source_override: None,
+        dig_file: None,
     }
 }
